@@ -261,11 +261,24 @@ var catalogue = []*tv.Desc{
 	{K: "bytes"},
 	{K: "raw"},
 	{K: "ptr", Elem: &tv.Desc{K: "int"}},
+	// pointers, maps and slices three and four levels down
+	mapOf(mapOf(mapOf(&tv.Desc{K: "ptr", Elem: pq(20)}))),
+	mapOf(mapOf(&tv.Desc{K: "ptr", Elem: mapOf(pq(21))})),
+	mapOf(mapOf(mapOf(mapOf(&tv.Desc{K: "int"})))),
+	mapOf(&tv.Desc{K: "ptr", Elem: mapOf(&tv.Desc{K: "ptr", Elem: mapOf(&tv.Desc{K: "ptr", Elem: pq(22)})})}),
+	mapOf(mapOf(mapOf(&tv.Desc{K: "slice", Elem: &tv.Desc{K: "int"}}))),
+	mapOf(mapOf(mapOf(&tv.Desc{K: "any"}))),
+}
+
+func mapOf(e *tv.Desc) *tv.Desc { return &tv.Desc{K: "map", Key: &tv.Desc{K: "string"}, Elem: e} }
+func pq(id int) *tv.Desc {
+	return &tv.Desc{K: "struct", ID: id, Fields: []tv.Field{{Name: "P", T: &tv.Desc{K: "int"}}, {Name: "Q", T: &tv.Desc{K: "int"}}}}
 }
 
 // shapes of JSON values placed at the top level and under one member "k" / "1".
 var shapes = []string{`null`, `0`, `7`, `"s"`, `true`, `[]`, `[1]`, `[1,2]`, `[{"P":1},{"Q":2}]`, `[[1],[2,3]]`, `[null,1]`, `{}`, `{"P":1}`, `{"Q":2}`, `{"P":3,"Q":4}`, `{"P":null}`,
-	`{"k":1}`, `{"k":{"P":1}}`, `{"k":{"Q":2}}`, `{"k":[1,2]}`, `{"k":[3]}`, `{"k":null}`, `{"j":{"P":5}}`, `{"1":[1,2]}`, `{"1":[3]}`, `{"1":null}`, `"AQI="`, `""`, `{"k":{"k":{"P":1}}}`, `{"k":{"k":{"Q":2}}}`, `[{"Q":7}]`, `[{"P":8},7]`}
+	`{"k":1}`, `{"k":{"P":1}}`, `{"k":{"Q":2}}`, `{"k":[1,2]}`, `{"k":[3]}`, `{"k":null}`, `{"j":{"P":5}}`, `{"1":[1,2]}`, `{"1":[3]}`, `{"1":null}`, `"AQI="`, `""`, `{"k":{"k":{"P":1}}}`, `{"k":{"k":{"Q":2}}}`, `[{"Q":7}]`, `[{"P":8},7]`,
+	`{"k":{"k":{"k":{"P":1}}}}`, `{"k":{"k":{"k":{"Q":2}}}}`, `{"k":{"k":{"k":null}}}`, `{"k":{"k":{"k":{"k":3}}}}`, `{"k":{"k":{"k":{"j":4}}}}`, `{"k":{"k":{"k":[5]}}}`}
 
 func enumCatalogue(e *rt.Env, yield func(Case) bool) {
 	var idx, total int64
